@@ -72,6 +72,8 @@ enum Mode {
     Safety,
     Reorder,
     Fold,
+    /// reorder (and watermark safety) across several iterations of a single-replica chain
+    ReorderIter,
 }
 
 /// The classifier of the open known findings of C06 (see known_findings.json).
@@ -134,8 +136,11 @@ fn run_kf(ctx: &Ctx, report: &mut Report) {
     search(ctx, 9, ctx.cases(40, 400), 60..300, report, |choices, _rep, shrinking| {
         let mut ch = Chooser::new(choices);
         let mut next_id = 0;
-        let source = gen_source(&mut ch, &ScriptOpts { max_replicas: 2, max_iterations: 1, max_len: 40, non_negative: false, styles: [6, 1, 1, 1], min_len: 0, wm_weight: 3 }, &mut next_id);
-        let n = ch.range(2, 5) as u8;
+        let mut source = gen_source(&mut ch, &ScriptOpts { max_replicas: 2, max_iterations: 1, max_len: 40, non_negative: false, styles: [6, 1, 1, 1], min_len: 0, wm_weight: 3 }, &mut next_id);
+        // the first replica ends with two elements below a final watermark: with a window of 3 or
+        // more elements they are the partial group of the finding
+        source.scripts[0][0] = vec![Sx::Ts(1001, 1), Sx::Ts(1002, 2), Sx::Wm(5)];
+        let n = ch.range(3, 5) as u8;
         let job = TsJob { source, stages: vec![TsStage::ReplicateOne, TsStage::CountWindow { k: 1, n, s: n, exact: false }] };
         let cfg = gen_cfg(&mut ch);
         let c = counter.get();
@@ -168,10 +173,11 @@ fn run_mode(ctx: &Ctx, mode: Mode, report: &mut Report, cases: u32, stream: u64)
             windows: mode == Mode::Safety,
             non_exact_count_windows: !f4_open,
             reorder_only: mode == Mode::Reorder,
+            single_replica_iterations: mode == Mode::ReorderIter,
         };
         let mut job = gen_job(&mut ch, &prof);
         match mode {
-            Mode::Reorder => {
+            Mode::Reorder | Mode::ReorderIter => {
                 if !job.stages.iter().any(|s| matches!(s, TsStage::Reorder)) {
                     job.stages.push(TsStage::Reorder);
                 }
@@ -191,7 +197,7 @@ fn run_mode(ctx: &Ctx, mode: Mode, report: &mut Report, cases: u32, stream: u64)
         for cfg in &cfgs {
             let n = counter.get();
             counter.set(n + 1);
-            let replay = json!({"property": id, "tsjob": job, "configs": [cfg], "mode": match mode { Mode::Safety => "safety", Mode::Reorder => "reorder", Mode::Fold => "fold" }});
+            let replay = json!({"property": id, "tsjob": job, "configs": [cfg], "mode": match mode { Mode::Safety => "safety", Mode::Reorder | Mode::ReorderIter => "reorder", Mode::Fold => "fold" }});
             let run = match run_ts(&job, cfg, AddrSeed { shard: ctx.shard, job: n }, ctx.tier, shrinking) {
                 Ok(r) => r,
                 Err(message) => return Case::Fail { message, replay },
@@ -213,7 +219,13 @@ fn run_mode(ctx: &Ctx, mode: Mode, report: &mut Report, cases: u32, stream: u64)
                         return Case::Fail { message, replay };
                     }
                 },
-                Mode::Reorder => {
+                Mode::Reorder | Mode::ReorderIter => {
+                    if mode == Mode::ReorderIter {
+                        // the safety monitor also holds across the iterations of the chain
+                        if let Err((_, message)) = watermark_safety(&g, &run.info) {
+                            return Case::Fail { message, replay };
+                        }
+                    }
                     for (before, after, st) in stage_probe_ids(&job) {
                         if let TsStage::Reorder = st {
                             match reorder_oracle(&g, before, after) {
@@ -447,6 +459,7 @@ fn run(ctx: &Ctx, mode: &str) -> Report {
         ("C06", "kf") => run_kf(ctx, &mut report),
         ("C06", _) => run_mode(ctx, Mode::Safety, &mut report, ctx.cases(500, 12000), 1),
         (_, "reorder") => run_mode(ctx, Mode::Reorder, &mut report, ctx.cases(240, 6000), 2),
+        (_, "reorder_iter") => run_mode(ctx, Mode::ReorderIter, &mut report, ctx.cases(240, 6000), 4),
         (_, "fold_ts") => run_mode(ctx, Mode::Fold, &mut report, ctx.cases(160, 4000), 3),
         (_, "event_e2e") => run_event_e2e(ctx, &mut report, ctx.cases(240, 6000)),
         (_, "interval") => run_interval(ctx, &mut report, ctx.cases(240, 6000)),
